@@ -28,7 +28,9 @@ RULE = ("messages over the JSON-native domain (boundary integers/floats, control
         "add_destinations + the logging API. Oracle: the op tape is (write flush)* after the zero-length mode probe, one pair per "
         "message; each write is one newline-terminated line without inner newline, valid UTF-8, decoded by the stdlib json module "
         "to an object equal to the message (strict types, -0.0 sign, exact 64-bit integers; rich types in their documented encoding); "
-        "binary bytes == UTF-8 of the text variant. part 'faultyfile': the file's write()/flush() raise on selected calls (BlockingIOError, "
+        "binary bytes == UTF-8 of the text variant. part 'realtext': io.TextIOWrapper files in utf-8/16/32 with program text pending in the wrapper, destination built positionally "
+        "(file, encoder, json_default) or by to_file(f, None, default): lines go through the file's own write/flush, after the pending text, in its encoding. "
+        "part 'faultyfile': the file's write()/flush() raise on selected calls (BlockingIOError, "
         "InterruptedError, ENOSPC, closed file): still exactly one write of each offered message's line (none duplicated by a retry), "
         "only the file's own exception may come out, later messages are written normally. non-trivial = message with an escape-requiring string, a boundary number or "
         "nesting >=3; distinct by hash of the message")
@@ -138,6 +140,8 @@ def plan(tier, seed):
     specs = [{"seed": seed, "lo": i, "hi": min(n, i + BATCH), "tier": tier} for i in range(0, n, BATCH)]
     k = 8 if tier == "quick" else 80
     specs += [{"seed": seed, "lo": 10**7 + i * BATCH, "hi": 10**7 + (i + 1) * BATCH, "tier": tier, "interpreter": "no_orjson"} for i in range(k)]
+    nr = 1500 if tier == "quick" else 15000
+    specs += [{"part": "realtext", "seed": seed, "lo": i, "hi": min(nr, i + 100), "tier": tier} for i in range(0, nr, 100)]
     nf = 2000 if tier == "quick" else 20000
     specs += [{"part": "faultyfile", "seed": seed, "lo": i, "hi": min(nf, i + 100), "tier": tier} for i in range(0, nf, 100)]
     return specs
@@ -511,8 +515,96 @@ def faulty_file_case(seed, i, res):
                                                                                "ops": [o[0] for o in f.ops][:40]}})
 
 
+def realtext_case(seed, i, res):
+    """Real text files (io.TextIOWrapper over a byte stream) in several encodings, with program text pending in the wrapper's own
+    buffer, given positionally together with a json_default: the lines go through the file's own write()/flush(), after what the
+    program wrote before, in the file's encoding."""
+    import io
+    from eliot import to_file
+    rng = random.Random("%s:C10:rt:%d" % (seed, i))
+    enc = rng.choice(["utf-8", "utf-16", "utf-32", "utf-8-sig", "utf-16-le"])
+    calls = []
+
+    class RecordingWrapper(io.TextIOWrapper):
+        def write(self, s_):
+            if len(s_):  # (the zero-length bytes write is eliot's probe for the file's mode: a text file refuses it)
+                calls.append(("write", s_))
+            return io.TextIOWrapper.write(self, s_)
+
+        def flush(self):
+            calls.append(("flush", None))
+            return io.TextIOWrapper.flush(self)
+    raw = io.BytesIO()
+    f = RecordingWrapper(raw, encoding=enc, newline="\n")
+    header = "# written by the program itself, not flushed: %s\n" % gen.gen_text(rng, long_ok=False).replace("\n", " ").replace("\r", " ")
+    f.write(header)
+    del calls[:]
+    how = rng.choice(["FileDestination(f, None, default)", "FileDestination(file=f, json_default=default)", "to_file(f, None, default)"])
+    n = rng.randint(1, 5)
+    msgs = []
+    problems = []
+    try:
+        if how.startswith("to_file"):
+            to_file(f, None, default_a)
+            try:
+                for k in range(n):
+                    v = Custom(k) if k % 2 == 0 else gen.gen_text(rng, long_ok=False)
+                    msgs.append({"message_type": "rt", "k": k, "v": {"custom": k} if k % 2 == 0 else v})
+                    log_message(message_type="rt", k=k, v=v)
+            finally:
+                remove_destination(FileDestination(f, None, default_a))
+        else:
+            dest = FileDestination(f, None, default_a) if how.startswith("FileDestination(f,") else FileDestination(file=f, json_default=default_a)
+            for k in range(n):
+                v = Custom(k) if k % 2 == 0 else gen.gen_text(rng, long_ok=False)
+                msgs.append({"message_type": "rt", "k": k, "v": {"custom": k} if k % 2 == 0 else v})
+                dest({"message_type": "rt", "k": k, "v": v, "task_uuid": "rt-%d" % i, "task_level": [k + 1], "timestamp": 1.0})
+    except BaseException as e:
+        problems.append("%s: offering a message raised %r" % (how, e))
+    kinds = [c_[0] for c_ in calls]
+    if kinds != ["write", "flush"] * n:
+        problems.append("%s on a real text file: the file's own operations are %s, expected (write, flush) per message" % (how, kinds[:12]))
+    elif not all(isinstance(c_[1], str) and c_[1].endswith("\n") and "\n" not in c_[1][:-1] for c_ in calls[0::2]):
+        problems.append("%s on a real text file: a write did not carry exactly one text line" % how)
+    f.flush()
+    try:
+        text = raw.getvalue().decode(enc)
+    except Exception as e:
+        text = None
+        problems.append("the %s file does not decode as %s: %r" % (enc, enc, e))
+    if text is not None and not problems:
+        want_head = header
+        if not text.startswith(want_head):
+            problems.append("text the program wrote to the %s file before logging does not come first: file starts with %r" % (enc, text[:60]))
+        else:
+            lines = text[len(want_head):].split("\n")
+            if lines[-1] != "" or len(lines) - 1 != n:
+                problems.append("%d messages, %d lines in the text file" % (n, len(lines) - 1))
+            else:
+                for want, ln in zip(msgs, lines[:-1]):
+                    try:
+                        obj = json.loads(ln)
+                    except Exception as e:
+                        problems.append("line in the %s text file is not JSON: %r" % (enc, e))
+                        break
+                    if not all(json_equal(obj.get(k_), v_) for k_, v_ in want.items()):
+                        problems.append("%s: line decodes to %r, expected fields %r" % (how, {k_: obj.get(k_) for k_ in want}, want))
+                        break
+    res["evals"] += 1
+    c = res["counters"]
+    c["real_text_file_runs"] = c.get("real_text_file_runs", 0) + 1
+    c["write_calls_checked"] = c.get("write_calls_checked", 0) + n
+    res["nontrivial"].append(h(["rt", enc, how, n]))
+    if problems:
+        res["violations"].append({"msg": problems[0], "mech": None, "detail": {"part": "realtext", "case": i, "encoding": enc, "how": how, "problems": problems[:5]}})
+
+
 def run_case(spec):
     res = {"evals": 0, "nontrivial": [], "counters": {}, "violations": [], "sample": None}
+    if spec.get("part") == "realtext":
+        for i in range(spec["lo"], spec["hi"]):
+            realtext_case(spec["seed"], i, res)
+        return res
     if spec.get("interpreter") == "no_orjson":
         if not NO_ORJSON:
             return {"inconclusive": "the no-orjson case was not started in an interpreter without orjson"}
